@@ -141,6 +141,42 @@ def main():
             log("PROVE: leanchecker %s" % ("ok" if okc else "FAILED"))
         log("PROVE: %d theorems audited, %d problems" % (len(theorems), len(broken)))
 
+    # ---- 2b. TIE BY TRANSLATION ---------------------------------------------------
+    # The source of the pure kernels is re-translated on every run (tools/symtrace.py, Gen/Src*.lean) and
+    # Tie/*.lean proves the hand-written model equal to it.  This is one of the TWO ties between model and
+    # code (DESIGN.md II.8); the other is the differential correspondence of step 3.  A harmless rewrite of the
+    # source can defeat the translation or its equivalence proof, so a tie that no longer checks is not a
+    # violation by itself and not an obligation of the property: it makes this run fall back on the
+    # differential tie alone, at the thorough tier's depth, and says so in the evidence.
+    tie = {"modules": list(getattr(mod, "TIE_MODULES", [])), "status": "not used by this property"}
+    ctx.tie_broken = []
+    if tie["modules"]:
+        okt, outt = common.lake_build(tie["modules"])
+        tie_th = {}
+        if okt:
+            for tm in tie["modules"]:
+                for k, v in common.audit(tm).items():
+                    if k.startswith(tm + "."):
+                        tie_th[k[len("DaliVerif."):]] = v
+            missing = [t for t in getattr(mod, "TIE_THEOREMS", []) if t not in tie_th]
+            badax = [t for t, axs in tie_th.items() if any(a not in common.ALLOWED_AXIOMS for a in axs)]
+            hits = common.grep_forbidden(tie["modules"])
+            if missing or badax or hits:
+                okt = False
+                outt = "missing %s, axioms %s, forbidden words %s" % (missing, badax, hits)
+        if okt:
+            tie.update(status="proved", theorems=tie_th)
+            log("TIE: source translation = model: %d theorems proved over the regenerated definitions" % len(tie_th))
+        else:
+            failed = gen_info.get("failed", {}) if isinstance(gen_info, dict) else {}
+            tie.update(status="not established on this tree", errors=common.lean_errors(outt)[:3] or [outt[-600:]],
+                       translator_failures={k: v[-400:] for k, v in failed.items() if k.startswith("Src")})
+            ctx.tie_broken = tie["modules"]
+            log("TIE: NOTE the translated source is no longer proved equal to the model (%s); falling back on the "
+                "differential correspondence at thorough depth" % ", ".join(tie["modules"]))
+            ctx.thorough = True      # depth of step 3 only; the tier recorded in the evidence stays as requested
+    ctx.tie = tie
+
     # ---- 3. CORRESPOND + ORACLE ------------------------------------------------
     corr = common.Corr()
     exes_ok = all((common.LEAN / ".lake" / "build" / "bin" / e).exists() for e in mod.EXES)
@@ -189,7 +225,7 @@ def main():
                           and all(a in common.ALLOWED_AXIOMS for a in theorems[t])) if not broken else
         sum(1 for t in mod.THEOREMS if t in theorems),
         "checker_cmd": "cd lean && lake build %s && lake env lean <audit of %s> %s" % (
-            mod.MODULE, mod.MODULE, "&& lake env leanchecker " + mod.MODULE if ctx.thorough else ""),
+            mod.MODULE, mod.MODULE, "&& lake env leanchecker " + mod.MODULE if args.tier == "thorough" else ""),
         "trusted_base": common.TRUSTED_BASE + list(getattr(mod, "TRUSTED", [])),
         "theorems": {t: theorems.get(t) for t in sorted(theorems)},
         "evaluations": corr.evaluations,
@@ -204,6 +240,7 @@ def main():
         "disagreements_model_vs_impl": ndis,
         "known_findings_reproduced": sorted(seen_known),
         "gen": {k: v for k, v in gen_info.items() if k != "files"},
+        "tie_by_translation": ctx.tie,
         "partial": getattr(mod, "PARTIAL", ""),
     }
     assumptions = list(getattr(mod, "ASSUMPTIONS", []))
